@@ -17,10 +17,10 @@ class C17:
         # server-numbered job added then has to skip both, and must still be served in the order it came
         collide = narrow_cfg(tier, {"add", "addanon", "pull", "finish"}, workers=("w1",), maxjobs=4, bound=11 if tier == "quick" else 13,
                              idnames=(3, 4, "x", "y"))
-        return X.search_phases(self.id, [("wide", cfg, cap), ("narrow-deep", narrow, 60 if tier == "quick" else 1500),
-                                         ("empty-string-id", falsy, 30 if tier == "quick" else 600),
-                                         ("integer-zero-id", zero, 30 if tier == "quick" else 600),
-                                         ("server-numbers-taken", collide, 60 if tier == "quick" else 900)], tier, seed, self.families,
+        return X.search_phases(self.id, [("wide", cfg, cap), ("narrow-deep", narrow, 60 if tier == "quick" else 600),
+                                         ("empty-string-id", falsy, 30 if tier == "quick" else 300),
+                                         ("integer-zero-id", zero, 30 if tier == "quick" else 300),
+                                         ("server-numbers-taken", collide, 60 if tier == "quick" else 300)], tier, seed, self.families,
                                rule=RULE + "; every RPC return value and every quiescent state is compared with a sequential reference model (mc/ref/queue_ref.py); getstats/qinfo observed in every state; second phase: narrow configuration (1 channel, 2 workers, 2 jobs, two-id waits) to a deeper bound; third/fourth phase: the narrow configuration with client-chosen ids that are falsy in Python ('' and 0)",
                                assumptions=ASSUME, gate=gate)
 
